@@ -106,6 +106,13 @@ Lemma eval_EList W E l : eval W E (EList l) = option_map VList (eval_list W E l)
 Proof. reflexivity. Qed.
 Lemma eval_ETuple W E l : eval W E (ETuple l) = option_map VTuple (eval_list W E l).
 Proof. reflexivity. Qed.
+Lemma eval_ESet W E l :
+  eval W E (ESet l) =
+  match eval_list W E l with
+  | Some vs => if forallb (hashable W) vs then Some (VSet false (set_of vs)) else None
+  | None => None
+  end.
+Proof. reflexivity. Qed.
 Lemma eval_EDict W E kv :
   eval W E (EDict kv) =
   match eval_pairs W E kv with
@@ -200,7 +207,8 @@ Lemma veq_VList b l l' : veq b (VList l) (VList l') = veq_list b l l'.
 Proof. reflexivity. Qed.
 Lemma veq_VTuple b l l' : veq b (VTuple l) (VTuple l') = veq_list b l l'.
 Proof. reflexivity. Qed.
-Lemma veq_VSet b f f' l l' : veq b (VSet f l) (VSet f' l') = veq_list b l l'.
+Lemma veq_VSet b f f' l l' :
+  veq b (VSet f l) (VSet f' l') = Nat.eqb (length l) (length l') && forallb (fun x => existsb (veq b x) l') l.
 Proof. reflexivity. Qed.
 Lemma veq_VDict b l l' : veq b (VDict l) (VDict l') = veq_pairs b l l'.
 Proof. reflexivity. Qed.
